@@ -28,6 +28,9 @@ struct Item {
     /// instead of raw bytes: an Encryption Response with a valid RSA layer whose secret has this length
     #[serde(default)]
     enc_secret_len: Option<usize>,
+    /// a packet the configuration phase tolerates, sent right before the hostile bytes (deviation bound 2)
+    #[serde(default)]
+    tolerated_first: Option<String>,
 }
 
 #[derive(Clone)]
@@ -112,7 +115,7 @@ fn render_with(id: i32, parts: &[Part], k: usize, replacement: Vec<u8>) -> Vec<u
 fn items_for(state: usize, max: i32, thorough: bool) -> Vec<Item> {
     let mut v = vec![];
     let mut push = |class: &str, bytes: Vec<u8>, eof: bool, malformed: bool, refuse_now: bool| {
-        v.push(Item { state, max, class: class.into(), bytes_hex: hex(&bytes), eof, malformed, refuse_now, enc_secret_len: None })
+        v.push(Item { state, max, class: class.into(), bytes_hex: hex(&bytes), eof, malformed, refuse_now, enc_secret_len: None, tolerated_first: None })
     };
     // A. outer length alphabet: the prefix alone, then silence (out of range) or EOF (in range)
     let outer: Vec<(String, Vec<u8>, bool)> = vec![
@@ -214,11 +217,11 @@ fn items_for(state: usize, max: i32, thorough: bool) -> Vec<Item> {
     drop(push);
     if state == 6 {
         for n in [0usize, 1, 8, 15, 17, 24, 32, 100] {
-            v.push(Item { state, max, class: format!("valid-rsa-secret-len-{n}"), bytes_hex: String::new(), eof: true, malformed: true, refuse_now: false, enc_secret_len: Some(n) });
+            v.push(Item { state, max, class: format!("valid-rsa-secret-len-{n}"), bytes_hex: String::new(), eof: true, malformed: true, refuse_now: false, enc_secret_len: Some(n), tolerated_first: None });
         }
     }
     let mut push = |class: &str, bytes: Vec<u8>, eof: bool, malformed: bool, refuse_now: bool| {
-        v.push(Item { state, max, class: class.into(), bytes_hex: hex(&bytes), eof, malformed, refuse_now, enc_secret_len: None })
+        v.push(Item { state, max, class: class.into(), bytes_hex: hex(&bytes), eof, malformed, refuse_now, enc_secret_len: None, tolerated_first: None })
     };
     // G. every [len][id][b] frame and two-byte bodies over a boundary alphabet, then EOF
     let ids: Vec<i32> = (0..=0x20).chain([0x7f]).collect();
@@ -246,6 +249,12 @@ fn build(it: &Item) -> Case {
     case.cfg.auth_secret = Some(SECRET.to_vec());
     case.cfg.max_packet_length = it.max;
     case.script = prefix(it.state);
+    match it.tolerated_first.as_deref() {
+        Some("keep-alive") => case.script.push(st(When::Idle, Act::KeepAlive(0x1234))),
+        Some("plugin-message") => case.script.push(st(When::Idle, Act::Frame { id: 2, body: W::new().string("minecraft:brand").raw(&[0x55; 200]).done() })),
+        Some("resource-pack-response") => case.script.push(st(When::Idle, Act::Frame { id: 6, body: W::new().u128(9).varint(3).done() })),
+        _ => {}
+    }
     match it.enc_secret_len {
         Some(n) => case.script.push(st(When::Idle, Act::EncResponse(EncKind::SecretLen(n)))),
         None => case.script.push(st(When::Idle, Act::Raw(common::unhex(&it.bytes_hex)))),
@@ -270,7 +279,7 @@ fn judge(it: &Item, baseline_packets: usize, obs: &Obs) -> Vec<(String, String)>
         bad(format!("panic:{}", it.class.trim_end_matches("+eof")), format!("state {st}: handler panicked: {p}"));
         return v;
     }
-    if obs.steps_done < prefix(it.state).len() + 1 {
+    if obs.steps_done < prefix(it.state).len() + 1 + it.tolerated_first.is_some() as usize {
         // the hostile bytes were never sent (the prefix did not get that far): not a verdict
         bad("machinery:prefix-did-not-complete".into(), format!("state {st}: only {} steps done; result {:?}", obs.steps_done, obs.result));
         return v;
@@ -356,13 +365,23 @@ pub fn run(cli: Cli) -> ! {
                 // the tiny-frame sweep does not depend on the maximum: keep it for the first maximum only
                 its.retain(|i| i.class != "tiny-frame");
             }
+            if thorough && state >= 8 && mi == 0 {
+                // bound 2: a tolerated packet first, then the hostile frame
+                for first in ["keep-alive", "plugin-message", "resource-pack-response"] {
+                    for it in its.iter().filter(|i| i.class != "tiny-frame") {
+                        let mut it2 = it.clone();
+                        it2.tolerated_first = Some(first.to_string());
+                        items.push(it2);
+                    }
+                }
+            }
             items.extend(its);
         }
     }
     // number of clientbound packets the honest prefix alone produces, per state
     let baseline: Vec<usize> = (0..10)
         .map(|s| {
-            let mut c = build(&Item { state: s, max: 10_000, class: String::new(), bytes_hex: String::new(), eof: false, malformed: false, refuse_now: false, enc_secret_len: None });
+            let mut c = build(&Item { state: s, max: 10_000, class: String::new(), bytes_hex: String::new(), eof: false, malformed: false, refuse_now: false, enc_secret_len: None, tolerated_first: None });
             c.script.truncate(prefix(s).len());
             c.horizon_ms = 1;
             crate::sim::run(&c).packets.len()
